@@ -23,7 +23,7 @@ var skeletonFuncs = map[string]bool{
 
 // calls that carry no synchronisation, I/O or callback meaning and are left out of the skeleton
 var ignoreCalls = []string{"s.Log.Printf", "fmt.Sprintf", "errors.Errorf", "errors.New", "errors.Wrap", "errors.Wrapf",
-	"time.Now", "conn.RemoteAddr", "runtime.Stack", "string", "len", "int", "make", "append", "log.New", "wrapError",
+	"time.Now", "conn.RemoteAddr", "runtime.Stack", "string", "len", "int", "make", "log.New", "wrapError",
 	"batchErr.Error", "protoErr.ResultReason", "uint32"}
 
 func exprString(fset *token.FileSet, e ast.Node) string {
